@@ -97,6 +97,8 @@ LIST_DOCS = [
     'doc(p(strong("a"), em(strong("b")), em("c")), p(a("u")("d"), a("v")("e")))',
     'doc(pre(U + "\\nx\\r\\ny"), p("a\\nb"))',
     'doc(pre("c"), p(em("d"), "e"), p("f"))',
+    'doc(p(em("abc"), em(strong("defg")), "h"), p(em("ij")))',
+    'doc(ul(li(p("a"), p("b"), p("c"), ul(li(p("d"))))))',
 ]
 BASIC_DOCS = [
     'doc(p("ab"), bq(p("c")))',
